@@ -20,7 +20,8 @@ Definition gen_lit_chain : chain lact :=
    ([CList; CSet], GAlways, AArray);
    ([CTuple], GAlways, ATuple);
    ([CDict], GAlways, AMap);
-   ([CFloat], GNan, ANanCast);
+   ([CFloat], GNan, ANanCast TDouble);
+   ([CFloat], GInf, AInfCast);
    ([CDatetime], GAlways, ATsCast)].
 
 Definition gen_litfn_chain : chain fact :=
@@ -31,7 +32,8 @@ Definition gen_tovalue_chain : chain vact :=
   [([CDict], GMapLike, VMap);
    ([CDict], GAlways, VRow);
    ([CList; CSet; CTuple], GTruthy, VList);
-   ([CDatetime], GAlways, VStripTz)].
+   ([CDatetime], GAlways, VStripTz);
+   ([CDecimal], GAlways, VFloat)].
 
 Definition gen_primitive_mapping : list (string * string) :=
   [("VARCHAR"%string, "VarcharType"%string);
@@ -53,3 +55,6 @@ Definition gen_primitive_mapping : list (string * string) :=
    ("TIMESTAMPNTZ"%string, "TimestampType"%string);
    ("DATE"%string, "DateType"%string);
    ("JSON"%string, "StringType"%string)].
+
+Definition gen_cells_float_via_lit : bool := true.
+Definition gen_sample_first_non_none : bool := true.
